@@ -83,7 +83,7 @@ impl<Idx: ZeroCopy + SerializeInner + TypeHash + AlignHash> SerializeInner
     for core::ops::Range<Idx>
 {
     type SerType = Self;
-    const IS_ZERO_COPY: bool = true;
+    const IS_ZERO_COPY: bool = Idx::IS_ZERO_COPY;
     const ZERO_COPY_MISMATCH: bool = false;
 
     #[inline(always)]
@@ -116,7 +116,7 @@ impl<Idx: ZeroCopy + SerializeInner + TypeHash + AlignHash> SerializeInner
     for core::ops::RangeFrom<Idx>
 {
     type SerType = Self;
-    const IS_ZERO_COPY: bool = true;
+    const IS_ZERO_COPY: bool = Idx::IS_ZERO_COPY;
     const ZERO_COPY_MISMATCH: bool = false;
 
     #[inline(always)]
@@ -146,7 +146,7 @@ impl<Idx: ZeroCopy + SerializeInner + TypeHash + AlignHash> SerializeInner
     for core::ops::RangeInclusive<Idx>
 {
     type SerType = Self;
-    const IS_ZERO_COPY: bool = true;
+    const IS_ZERO_COPY: bool = Idx::IS_ZERO_COPY;
     const ZERO_COPY_MISMATCH: bool = false;
 
     #[inline(always)]
@@ -184,7 +184,7 @@ impl<Idx: ZeroCopy + SerializeInner + TypeHash + AlignHash> SerializeInner
     for core::ops::RangeTo<Idx>
 {
     type SerType = Self;
-    const IS_ZERO_COPY: bool = true;
+    const IS_ZERO_COPY: bool = Idx::IS_ZERO_COPY;
     const ZERO_COPY_MISMATCH: bool = false;
 
     #[inline(always)]
@@ -214,7 +214,7 @@ impl<Idx: ZeroCopy + SerializeInner + TypeHash + AlignHash> SerializeInner
     for core::ops::RangeToInclusive<Idx>
 {
     type SerType = Self;
-    const IS_ZERO_COPY: bool = true;
+    const IS_ZERO_COPY: bool = Idx::IS_ZERO_COPY;
     const ZERO_COPY_MISMATCH: bool = false;
 
     #[inline(always)]
